@@ -97,6 +97,21 @@ func nodeAccount(a common.Address) common.Address {
 	return a
 }
 
+// QueueChange queues a MinerChangeAccount transaction (type 6).
+func (w *World) QueueChange(src common.Address, seq uint64, newAcct common.Address) *QTx {
+	m := types.Miner{Id: minerID(seq), Account: newAcct[:]}
+	bs, _ := json.Marshal(m)
+	tx := w.nextTx(&types.Transaction{Source: src.GetHexString(), Type: types.TransactionTypeMinerChangeAccount, Data: string(bs)})
+	q := &QTx{line: fmt.Sprintf("tx chacc %s %d %s", hexAddr(src), seq, hexAddr(newAcct)), tx: tx, feat: map[string]bool{"miner": true}}
+	q.onSuccess = func() {
+		if mr := w.findMiner(seq); mr != nil {
+			mr.account = newAcct
+		}
+	}
+	w.queue = append(w.queue, q)
+	return q
+}
+
 // QueueNode queues an OperatorNode transaction (type 7).
 func (w *World) QueueNode(src common.Address) *QTx {
 	tx := w.nextTx(&types.Transaction{Source: src.GetHexString(), Type: types.TransactionTypeOperatorNode})
@@ -136,6 +151,9 @@ func (w *World) Refund(list [][2]interface{}) {
 		parts = append(parts, hexAddr(a), v.String())
 	}
 	service.RefundManagerImpl.Add(map[uint64]types.RefundInfoList{h: rl}, w.adb)
+	for _, ri := range rl.List {
+		ri.Value.SetInt64(-424242) // retention: the escrow must not alias the caller's big.Int
+	}
 	service.RefundManagerImpl.CheckAndMove(h, w.adb)
 	line := "refund " + strconv.Itoa(len(list))
 	if len(parts) > 0 {
